@@ -91,7 +91,7 @@ KINDS = {"c14-overcount", "c14-undercount", "c14-over-limit", "c14-no-refusal", 
 def run(tier, seed, replay):
     rep = Report("C14", tier, seed)
     thorough = tier == "thorough"
-    ok, info = proof_stage(rep, MODULE, thorough=thorough)
+    ok, info = proof_stage(rep, MODULE, thorough=thorough, also=("KyroModel.Theorems.C14Conc",))
     bok, blog, bsecs = cargo_build()
     sok, slog, ssecs = rpc.server_build() if bok else (False, "", 0)
     if not bok or not sok:
